@@ -42,6 +42,10 @@ C13_RoundTrip == T.e = "rt" =>
   /\ Check("the value passed as a plain variable differs from the value written", (T.st1 = "ok" /\ T.st3 = "ok") => (T.am3 = T.am1 /\ T.tx3 = T.tx1))
   /\ Check("transaction metadata does not serialise to the account-metadata text", T.st1 = "ok" => (T.tx1 = T.am1 /\ T.txj1 = T.am1))
   /\ Check("a canonical text is not stored as itself", (T.st1 = "ok" /\ T.canon) => T.am1 = T.text)
+\* ---- scaling lift (C06 beyond TLC's integers): an exact split multiplied by a huge factor U gives U times the shares
+C06_Scaled == T.e = "scale" =>
+  \/ (T.st = "ok" /\ T.equal)
+  \/ (TLCSet(2, TLCGet(2) + 1) /\ PrintT("VIOL " \o ToJson([prop |-> "C06", id |-> T.n, line |-> l, what |-> "an exact split scaled by a factor beyond 2^31 / 2^64 does not give the scaled shares"])))
 Post == TLCGet(2) = 0
 ASSUME TLCSet(2, 0)
 =============================================================================
